@@ -58,7 +58,7 @@ func ideal(p planFlags, start, limit uint64, w *aWorld) (res []aBlock, why strin
 	}
 	if fetched {
 		if es == nil {
-			fail("transport failure of the block request")
+			fail("no decodable reply to the block request (status, body, or a quantity that is not a 64-bit number)")
 		}
 		for i, e := range *es {
 			if e.Err {
@@ -108,7 +108,7 @@ func ideal(p planFlags, start, limit uint64, w *aWorld) (res []aBlock, why strin
 	switch {
 	case p.Receipts:
 		if w.Receipts == nil {
-			fail("transport failure of the receipts request")
+			fail("no decodable reply to the receipts request (status, body, or a quantity that is not a 64-bit number)")
 		}
 		for i, e := range *w.Receipts {
 			if e.Err {
@@ -139,7 +139,7 @@ func ideal(p planFlags, start, limit uint64, w *aWorld) (res []aBlock, why strin
 		lb := w.Logs
 		switch {
 		case lb == nil:
-			fail("transport failure of the logs request")
+			fail("no decodable reply to the logs request (status, body, or a quantity that is not a 64-bit number)")
 		case lb.Len < 2:
 			fail("logs batch has %d elements", lb.Len)
 		case lb.Herr || lb.Lerr:
